@@ -104,6 +104,18 @@ func init() {
 				collectVars(s.t, secret, map[int]bool{})
 			}
 		}
+		// literal containment (a secret with a concrete part of at least 4 bytes)
+		nConc := 0
+		for _, b := range backing2(a[1]) {
+			if _, ok := b.(uint8); ok {
+				nConc++
+			}
+		}
+		if sb := backing2(a[1]); nConc >= 4 && len(sb) <= len(backing2(a[0])) {
+			if k, ok := extIndexSub(fr, []value{append([]value{}, backing2(a[0])...), append([]value{}, sb...)}).(int); ok && k >= 0 {
+				return true
+			}
+		}
 		if len(secret) == 0 {
 			return false
 		}
